@@ -137,6 +137,20 @@ fn lit_for(v: &V) -> Option<String> {
     }
 }
 
+/// class of a value under the sort key's equality: all NaNs together, -0.0 with 0.0, everything else exact
+fn sort_class(v: &V) -> String {
+    let f = match v {
+        V::Double(f) | V::Numeric(f) => Some(*f),
+        V::Float(f) | V::Real(f) => Some(*f as f64),
+        _ => None,
+    };
+    match f {
+        Some(f) if f.is_nan() => "nan".into(),
+        Some(f) if f == 0.0 => "zero".into(),
+        _ => val_struct(v),
+    }
+}
+
 fn bag(rows: &[Vec<V>]) -> Vec<String> {
     let mut v: Vec<String> = rows.iter().map(|r| r.iter().map(val_struct).collect::<Vec<_>>().join(" ")).collect();
     v.sort();
@@ -267,7 +281,10 @@ fn compare_dbs(orig: &mut Db, loaded: &mut Db, fmt: Fmt, rep: &mut Report) -> Ve
             let same = match (a.rows(), b.rows()) {
                 (Some(x), Some(y)) => {
                     if q.contains("ORDER BY") {
-                        x.iter().map(|r| val_struct(&r[0])).collect::<Vec<_>>() == y.iter().map(|r| val_struct(&r[0])).collect::<Vec<_>>()
+                        // ORDER BY fixes the order only up to ties under the engine's key equality
+                        // (-0.0 = 0.0, NaN vs NaN): compare the sequence of sort-key classes, and the
+                        // exact bit patterns as a multiset
+                        x.iter().map(|r| sort_class(&r[0])).collect::<Vec<_>>() == y.iter().map(|r| sort_class(&r[0])).collect::<Vec<_>>() && bag(x) == bag(y)
                     } else {
                         bag(x) == bag(y)
                     }
